@@ -337,6 +337,82 @@ Qed.
 End View.
 End Proofs.
 
+(* ================= what a query materialises ================= *)
+Section Materialised.
+Variable hash : bytes -> N.
+Variable psl : bytes -> bytes * bool.
+Variable backing : Z -> option rule.
+Variable ne : net_engine.
+Variable de : dns_engine.
+Variable V : Z -> option rule.
+Hypothesis Vsound : forall idx r, V idx = Some r -> backing idx = Some r.
+Notation St := (St backing ne de V).
+
+Definition cached (s : sstate) (idx : Z) (r : rule) : Prop := assoc_idx idx (ss_cache s) = Some r.
+
+(* a successful retrieval leaves the rule in the cache *)
+Lemma retrieve_caches idx s r : snd (retrieve backing idx s) = Some r -> cached (fst (retrieve backing idx s)) idx r.
+Proof.
+  unfold retrieve, cached. destruct (assoc_idx idx (ss_cache s)) as [r0|] eqn:E; cbn [fst snd].
+  - intro H; inversion H; subst. exact E.
+  - destruct (ss_readable s); [|discriminate]. destruct (backing idx) as [r0|]; [|discriminate].
+    cbn [fst snd ss_cache assoc_idx]. intro H; inversion H; subst. now rewrite Z.eqb_refl.
+Qed.
+
+(* generic invariant rule for foldM *)
+Lemma foldM_inv {A B} (f : A -> B -> M A) (I : sstate -> A -> Prop) :
+  (forall a x s, I s a -> I (fst (f a x s)) (snd (f a x s))) ->
+  forall l a s, I s a -> I (fst (foldM f l a s)) (snd (foldM f l a s)).
+Proof.
+  intros Hf l. induction l as [|x l IH]; intros a s Hi; cbn [foldM]; [exact Hi|].
+  unfold bind. specialize (Hf a x s Hi). destruct (f a x s) as [s1 a1]. cbn [fst snd] in Hf. now apply IH.
+Qed.
+
+(* every (index, rule) pair the shortcut table returns is in the cache afterwards *)
+Definition AllC (tbl : list (N * Z)) (s : sstate) (res : list (Z * net_rule)) : Prop :=
+  St s /\ forall x, In x res -> cached s (fst x) (RNet (snd x)) /\ exists h, In (h, fst x) tbl.
+
+Lemma sc_step_allc tbl q res idx s : (exists h, In (h, idx) tbl) -> AllC tbl s res ->
+  AllC tbl (fst (sc_step_st psl backing q res idx s)) (snd (sc_step_st psl backing q res idx s)).
+Proof.
+  intros Hin [Hs Hc]. unfold sc_step_st, bind, retrieve_net, bind, ret.
+  destruct (pure_retrieve backing ne de V idx s Hs) as (Hs1 & Hv & [G1 _]).
+  pose proof (retrieve_caches idx s) as Hrc.
+  destruct (retrieve backing idx s) as [s1 r]. cbn [fst snd] in *.
+  assert (Hold : forall x, In x res -> cached s1 (fst x) (RNet (snd x)) /\ exists h, In (h, fst x) tbl).
+  { intros x Hx. destruct (Hc x Hx) as [A B]. split; [now apply G1 | exact B]. }
+  destruct r as [[f|h|c]|]; try (split; assumption).
+  destruct (existsb _ res); [split; assumption|].
+  assert (Hh : holds backing ne de (OCache idx) f).
+  { cbn. apply Vsound. congruence. }
+  destruct (pure_rmatch psl backing ne de V (OCache idx) f q Hh s1 Hs1) as (Hs2 & _ & [G2 _]).
+  destruct (rmatch_st psl (OCache idx) f q s1) as [s2 b]. cbn [fst snd] in *.
+  split; [exact Hs2|]. intros x Hx.
+  assert (Hx' : In x res \/ (b = true /\ x = (idx, f))).
+  { destruct b; [apply in_app_or in Hx as [Hx|[<-|[]]]; auto | auto]. }
+  destruct Hx' as [Hx'|[_ ->]].
+  - destruct (Hold x Hx') as [A B]. split; [now apply G2 | exact B].
+  - cbn [fst snd]. split; [apply G2; now apply Hrc | exact Hin].
+Qed.
+
+Theorem shortcuts_materialised e q s : St s ->
+  AllC (ne_shortcuts e) (fst (match_shortcuts_st hash psl backing e q s)) (snd (match_shortcuts_st hash psl backing e q s)).
+Proof.
+  intro Hs. unfold match_shortcuts_st.
+  apply (foldM_inv _ (fun s res => AllC (ne_shortcuts e) s res)).
+  - intros res w s0 H0.
+    assert (Hb : forall l, (forall idx, In idx l -> exists h, In (h, idx) (ne_shortcuts e)) ->
+              forall res0 s1, AllC (ne_shortcuts e) s1 res0 ->
+              AllC (ne_shortcuts e) (fst (foldM (sc_step_st psl backing q) l res0 s1)) (snd (foldM (sc_step_st psl backing q) l res0 s1))).
+    { induction l as [|i l IH]; intros Hl res0 s1 H1; cbn [foldM]; [exact H1|]. unfold bind.
+      pose proof (sc_step_allc (ne_shortcuts e) q res0 i s1 (Hl i (or_introl eq_refl)) H1) as H2.
+      destruct (sc_step_st psl backing q res0 i s1) as [s2 r2]. cbn [fst snd] in H2.
+      apply IH; [intros j Hj; apply Hl; now right | exact H2]. }
+    apply Hb; [|exact H0]. intros idx Hi. exists (hash w). now apply bucket_in.
+  - split; [exact Hs | intros x []].
+Qed.
+End Materialised.
+
 (* ================= consequences ================= *)
 Section Consequences.
 Variable hash : bytes -> N.
@@ -416,5 +492,39 @@ Theorem cache_monotone V ops s : (forall idx r, V idx = Some r -> backing idx = 
 Proof.
   intros HV Hs Hops idx r Hc. destruct (run_pure hash psl backing ne de V HV ops Hops s Hs) as (_ & _ & [G _]).
   now apply G.
+Qed.
+
+(* a cached entry found under an index of the shortcut table is the rule the list files under that index *)
+Theorem materialised_is_listed rules V s idx f h :
+  (forall f0 i, In (f0, i) rules -> backing i = Some (RNet f0)) ->
+  St backing ne de V s -> In (h, idx) (ne_shortcuts (build_net hash rules)) ->
+  cached s idx (RNet f) -> In (f, idx) rules.
+Proof.
+  intros Hb [[I1 _] _] Hin Hc. destruct (build_from hash rules) as (F1 & _ & _).
+  destruct (F1 _ _ Hin) as [f0 H0]. apply I1 in Hc. rewrite (Hb _ _ H0) in Hc. inversion Hc; subst. exact H0.
+Qed.
+
+(* the chain "returned before the fault => materialised => still returned after it", for rules of the shortcut
+   table: if a query returned (idx, f) on readable lists, then after ANY further fault-free queries and the
+   fault, every query that f matches still returns f *)
+Theorem served_before_served_after rules q1 q2 ops s idx f :
+  (forall f0 i, In (f0, i) rules -> backing i = Some (RNet f0)) -> parsed rules ->
+  St backing ne de backing s -> Forall (fun o => o <> OpClose) ops ->
+  In (idx, f) (snd (match_shortcuts_st hash psl backing (build_net hash rules) q1 s)) ->
+  rmatch psl f q2 = true ->
+  let s1 := fst (match_shortcuts_st hash psl backing (build_net hash rules) q1 s) in
+  let s2 := fst (run hash psl backing ne de ops s1) in
+  exists f', In f' (match_all hash psl (vnet (cached_view s2)) (build_net hash rules) q2) /\ nr_text f' = nr_text f.
+Proof.
+  intros Hb Hp Hs Hops Hin M s1 s2.
+  destruct (shortcuts_materialised hash psl backing ne de backing (fun _ _ E => E) (build_net hash rules) q1 s Hs) as [Hs1 Hc].
+  fold s1 in Hs1, Hc. destruct (Hc _ Hin) as [Hcached [h Ht]]. cbn [fst snd] in Hcached, Ht.
+  assert (Hlisted : In (f, idx) rules) by (eapply materialised_is_listed; eauto).
+  assert (Hc2 : cached_view s2 idx = Some (RNet f)).
+  { apply (cache_monotone backing ops s1 (fun _ _ E => E) Hs1 Hops). exact Hcached. }
+  destruct (still_served rules (cached_view s2) q2 f idx Hc2) as (f' & Hf' & Ht' & _); auto.
+  - eapply parsed_pdomains_ok; eauto.
+  - now apply parsed_text_coherent.
+  - now exists f'.
 Qed.
 End Consequences.
